@@ -39,6 +39,9 @@ def obligations(c):
                  'kind': 'obligation', 'goal': S.And(cut['guard'], S.Not(progress))}
             if p['op'] == 'M':
                 o['expect_hang'] = k
+                # replayable region: a request larger than everything the level holds cannot end by being filled, so an
+                # iteration without progress means the real call spins
+                o['prefer'] = S.Ugt(S.ZExt(q, 70), h.total_supply(rec['pre_level'], 70))
             out.append(o)
         if p['op'] == 'I':
             # exhaustion by induction: the makers a call has set aside display nothing (assumed at the loop head,
